@@ -96,16 +96,23 @@ impl<W: Write + Seek> DbcWriter<W> {
         // Add all strings from the record set
         for record in record_set.records() {
             for value in record.values() {
-                if let Value::StringRef(string_ref) = value {
-                    let string = record_set.get_string(*string_ref)?;
+                // String references also occur as elements of array fields
+                let elements = match value {
+                    Value::Array(elements) => elements.as_slice(),
+                    single => std::slice::from_ref(single),
+                };
+                for element in elements {
+                    if let Value::StringRef(string_ref) = element {
+                        let string = record_set.get_string(*string_ref)?;
 
-                    if !string_offsets.contains_key(string) {
-                        let offset = string_block.len() as u32;
-                        string_offsets.insert(string.to_string(), offset);
+                        if !string_offsets.contains_key(string) {
+                            let offset = string_block.len() as u32;
+                            string_offsets.insert(string.to_string(), offset);
 
-                        // Add the string to the block
-                        string_block.extend_from_slice(string.as_bytes());
-                        string_block.push(0); // Null terminator
+                            // Add the string to the block
+                            string_block.extend_from_slice(string.as_bytes());
+                            string_block.push(0); // Null terminator
+                        }
                     }
                 }
             }
